@@ -343,6 +343,9 @@ class Machine:
             return args[0]
         if name in ("deref", "deref_mut", "as_mut", "as_ref", "borrow", "borrow_mut"):
             return args[0]
+        # a child kept in a Box (or moved through one) is still that child: ownership wrappers are transparent
+        if path in ("std::boxed::Box::<T>::new", "std::boxed::Box::<T>::pin", "std::boxed::Box::<T, A>::into_inner") or (name in ("new", "into_inner") and path.startswith("std::boxed::Box")):
+            return args[0]
         cb = cs.callee_body()
         if cb is not None and cb.qual.endswith("replace_state"):
             sub = {1: args[0], 2: args[1]}
